@@ -250,7 +250,7 @@ def harnesses(tier):
     q = tier == "quick"
     N = 3 if q else 4
     hs = [LodOp("filter", N, "function"), LodOp("filter_out", N, "function"), LodOp("filter", N, "kw"), LodOp("filter_out", N, "kw"),
-          LodOp("sort", 3 if q else 4), LodOp("sort", 2, "ragged"), LodOp("unique", N, "keys"), LodOp("unique", 2 if q else 3, "ragged"),
+          LodOp("sort", 3), LodOp("sort", 2 if q else 3, "ragged"), LodOp("unique", N, "keys"), LodOp("unique", 2 if q else 3, "ragged"),
           LodOp("drop_na", 2 if q else 3)]
     for m in ("select", "unselect", "rename", "fill_missing_keys"):
         hs.append(LodOp(m, 2))
